@@ -5,10 +5,11 @@
    `spur` counts deliveries that announce nothing (bounded by MaxSpur: they are no-ops of
    the specification, kept to see that the real handler also does nothing). *)
 EXTENDS SubprocessExit
-CONSTANTS L, MaxSpur
+CONSTANTS L, MaxSpur, Ext        \* Ext = FALSE leaves out explicit initialize / uninitialize calls
 VARIABLES hist, spur
 GenInit == InitState /\ hist = <<step>> /\ spur = 0
 GenNext == /\ Next
+           /\ Ext \/ step'.act \notin {"initialize", "uninitialize"}
            /\ hist' = Append(hist, step')
            /\ spur' = IF step'.act = "sigchld" /\ ~sigpending /\ ~lostsig THEN spur + 1 ELSE spur
 GenSpec == GenInit /\ [][GenNext]_<<vars, step, hist, spur>>
